@@ -98,4 +98,16 @@ theorem span_reparse_type (fl : Flags) (s : Text) (t : TypeRef) (h : parseTypeTe
     rw [hlex]; simp only [hpc]; rfl
   · cases h
 
+/-! ### non-vacuity: ` [1 [a]]` and `[A!]!` -/
+private def txt : Text := [32, 91, 49, 32, 91, 97, 93, 93]
+
+/-- the list (1,8), `1` (2,3), `[a]` (4,7), `a` (5,6) -/
+example : ((parseValueText {} txt).map (fun v => v.subs.map Value.loc)) =
+    some [some (1, 8), some (2, 3), some (4, 7), some (5, 6)] := by decide
+/-- the text of the inner list, `[a]`, parses to the inner list at offset 0 -/
+example : (parseValueText {} (slice txt 4 7)).map (fun v => v.subs.map Value.loc) = some [some (0, 3), some (1, 2)] := by
+  decide
+example : (parseTypeText {} [91, 65, 33, 93, 33]).map (fun t => t.subs.map TypeRef.loc) =
+    some [some (0, 5), some (0, 4), some (1, 3), some (1, 2)] := by decide
+
 end PyGql.Props.C02
